@@ -48,8 +48,20 @@ var copyBufPool = sync.Pool{
 var bicopyGracefulTimeout = 1 * time.Minute
 
 func bicopy(ctx context.Context, cc ...copier) {
+	parent := ctx
 	ctx, cancel := context.WithCancel(ctx)
 	defer cancel()
+
+	// Close all tunnels at once when the proxy is closed.
+	go func() {
+		select {
+		case <-parent.Done():
+			for i := range cc {
+				cc[i].close(parent)
+			}
+		case <-ctx.Done():
+		}
+	}()
 
 	donec := make(chan struct{}, len(cc))
 	for i := range cc {
